@@ -356,6 +356,9 @@ def index(v: Val, idx: list, interp=None) -> Val:
                 e = sym.subst_ivar(e, iv, (x[1], x[2]))
             elif x[0] == "num" and float(x[1]).is_integer():
                 return index(v, [("int", int(x[1])) if j == items.index(it) else jt for j, jt in enumerate(items)], interp)
+            elif sym.subst_ivar_expr(e, iv, x) is not None and not any(y[0] in ("in", "at") for y in sym.walk(e)):
+                # a position-valued table (a grid, an arange): the entry at a computed position is the table's formula there
+                e = sym.subst_ivar_expr(e, iv, x)
             else:
                 # data-dependent scalar index: the row selected is named after the index expression, so two
                 # reads at the same index refer to the same row
@@ -421,6 +424,15 @@ def index(v: Val, idx: list, interp=None) -> Val:
             else:
                 return Unknown("mask-index", (e,))
         elif kind == "fancy":
+            fa = it[1] if isinstance(it[1], Arr) else to_arr(it[1])
+            if isinstance(fa, Arr) and sum(1 for j in items if j[0] == "fancy") == 1:
+                fa = fa.renamed()
+                e2 = sym.subst_ivar_expr(e, iv, fa.elem)
+                if e2 is not None:
+                    # table[positions]: one entry per position, the table's formula evaluated there
+                    e = e2
+                    axes.extend(fa.axes)
+                    continue
             return Unknown("fancy-index", (e,))
         else:
             return Unknown("index-kind-" + kind)
